@@ -312,6 +312,13 @@ def gen_species(rng, tier, focus):
            "edges": [list(e) for e in tedges], "positions": tpos}
     if rng.random() < 0.3:
         tgt["velocities"] = [gen.rvec(rng, 1.0) for _ in range(m)]
+    if focus in ("C01", "C03", "C04") and rng.random() < 0.06:
+        # the whole pair sits far from the origin (legal in a .gro file up to 9999.999): nothing in the map depends on where
+        # the origin of the coordinate system is
+        off = np.array(gen.rvec(rng, 1.0)) * rng.choice([1000.0, 4000.0, 9000.0])
+        ref["positions"] = (np.array(ref["positions"]) + off).tolist()
+        tgt["positions"] = (np.array(tgt["positions"]) + off).tolist()
+        info["far_from_origin"] = True
     scale = 1.0 if rng.random() < 0.25 else rng.choice([0.5, 0.5, rng.uniform(0.01, 2.0), 2.0, rng.uniform(0.3, 1.0)])
     if focus in ("C02", "C03", "C04") and rng.random() < 0.04:
         scale = 0.0          # "all scale factors": everything collapses onto the anchors, which still move with the argument
@@ -320,7 +327,7 @@ def gen_species(rng, tier, focus):
 
 def rigid(rng, positions=None):
     R = gen.random_rotation(rng)
-    t = gen.rvec(rng, rng.choice([0.0, 1.0, 30.0, 100.0]))
+    t = gen.rvec(rng, rng.choice([0.0, 1.0, 30.0, 100.0, 100.0, 3000.0, 9000.0]))
     if positions is not None and rng.random() < 0.12:
         # the motion puts one reference atom EXACTLY on the origin (t = -(R p), computed the way it is applied)
         kz = rng.randrange(len(positions))
@@ -528,7 +535,7 @@ def gen_ops(rng, tier, focus, ref, tgt, info, n_res):
                 ops.append({"op": "reject_again", "pick": rng.randrange(1000), "copy": rng.random() < 0.5})
         elif k == "mutate":
             what = rng.choice(["construction_ref", "construction_tgt", "result", "argument"])
-            op = {"op": "mutate", "what": what, "how": rng.choice(["move", "rotate", "overwrite"]),
+            op = {"op": "mutate", "what": what, "how": rng.choice(["move", "rotate", "overwrite", "inplace"]),
                   "d": gen.rvec(rng, 3.0), "R": gen.random_rotation(rng).tolist(), "pick": rng.randrange(1000),
                   "seed": rng.randrange(2 ** 31)}
             ops.append(op)
@@ -1151,14 +1158,15 @@ def _execute(trace, ctx, ref_spec, tgt_spec, scale, n, m, ref_pos0, tgt_pos0):
             return
         if assignment is None:
             return
-        tol8 = 1e-8 * max(1.0, coord_scale / 100.0)      # the statement's figure up to 100 nm, relative beyond
+        tol8 = 1e-8 * max(1.0, coord_scale / 100.0)      # the statement's figure up to 100 nm, relative beyond ...
         for k in range(m):
             a = assignment[k]
             if a is None:
                 continue
             if model.anchor_sin(a) >= 1e-3:
                 dev = float(np.max(np.abs(rpos[k] - want[k])))
-                if dev > tol8:
+                # ... for anchors near collinearity; a well-conditioned anchor (angle above ~6 degrees) keeps 1e-8 nm anywhere
+                if dev > (1e-8 * max(1.0, coord_scale / 3000.0) if model.anchor_sin(a) >= 0.1 else tol8):
                     ctx.violate("C02", "rigid-motion", f"map(R ref + t) differs from R map(ref) + t by {dev:.3e} nm at "
                                                        f"target atom {k} (anchor {a})", key="generic")
                     return
@@ -1353,7 +1361,14 @@ def _execute(trace, ctx, ref_spec, tgt_spec, scale, n, m, ref_pos0, tgt_pos0):
                 target = arguments[op["pick"] % len(arguments)][0]
             if target is None:
                 continue
-            if op["how"] == "move":
+            if op["how"] == "inplace":
+                # arithmetic IN PLACE on the position array of one atom (atom.position += d): whoever shares that array moves too
+                k_ = op["pick"] % len(target)
+                a_ = target[k_]
+                a_.position += np.array(op["d"])
+                if target is ref_live:
+                    construction_rigid[0] = False
+            elif op["how"] == "move":
                 target.move(np.array(op["d"]))
             elif op["how"] == "rotate":
                 target.rotate(np.array(op["R"]))
